@@ -78,6 +78,10 @@ CLAIMED = {
             'All 14 predefined operator globals and all ~60 predefined datatype globals are read from the source with their constant-folded flag masks and sizes; every branch of every kernel is decoded from the CFG (datatype test, C element type, loop bounds 0..*length-1, element statement) and the statement is evaluated exhaustively on the finite domain that determines the MPI result (3 orderings for MAX/MIN, 9 orderings of (value,index) for MAXLOC/MINLOC with ties to the lowest index, 4 truth pairs for LAND/LOR/LXOR, the compound operator for SUM/PROD/BAND/BOR/BXOR with complex products required to use a complex C type, memcpy for REPLACE, empty NO_OP); sizeof(C type) must equal the registered datatype size; every (op, datatype) CHECK_OP accepts must have a branch; chains end in a no-return rejection. ~1500 obligations covering every (operator, datatype) pair rather than the SUM-on-int cases the tests run.',
             'NaN/unordered floats and integer overflow are not modelled; user-defined operators and derived datatypes are outside the statement; rejection by abort (xbt_die) in the final else counts as rejection only for pairs CHECK_OP does not accept.',
             'DESIGN.md §3 C31'),
+    'C27': ('table extraction and agreement: generator tuples (literal arithmetic folded), switch cases and loop shape of the unit_scale constructor expanded by the checker and compared cell by cell with the SI/IEC reference; CFG path rules (rejection paths throw, result is strtod(string)*table[unit])',
+            'The four unit tables (time, size, bandwidth, speed: 145 cells) are rebuilt from the source of the tuples and of the generator constructor, not from a run, and compared with the SI/IEC reference; every path of xbt_parse_get_value_with_unit is enumerated: the out-of-range, no-digits and unknown-unit paths throw and the returning paths return the unmodified strtod result times the table entry of the text after the number (default unit when empty); each wrapper passes its own table and a default unit worth 1. This covers every unit and prefix at once, where the examples use a handful.',
+            'strtod and unordered_map::emplace/find are trusted (emplace keeps the first value: duplicates must agree, checked); locale is assumed C; the reference table is embedded in the checker and listed in the evidence assumptions.',
+            'DESIGN.md §3 C27'),
 }
 
 NOT_APPLICABLE = {
